@@ -58,6 +58,31 @@ def contract_is_host_set(ctx, suf):
     return f, probs
 
 
+def _dup_ok(ctx, p, a, dkey, skey, tyname):
+    """the address block behind dkey is a fresh block holding a copy of the one behind skey"""
+    if not str(a.get(dkey, '')).startswith('memory->malloc'):
+        return False
+    if a.get('*(%s)' % dkey) == '*(%s)' % skey:
+        return True
+    rec = ctx.prog.record(tyname)
+    size = None
+    if rec is not None:
+        import re
+        size = 0
+        for fld in rec.c:
+            m = re.match(r'unsigned char\[(\d+)\]$', fld.ty or '')
+            if not m:
+                size = None
+                break
+            size += int(m.group(1))
+    for e in p.events:
+        if e[0] == 'call' and e[1] == 'memcpy' and len(e[2]) == 3:
+            dst, src, n = e[2]
+            if dst in (dkey, a.get(dkey)) and src == skey and (n == 'sizeof(%s)' % tyname or (size is not None and n == str(size))):
+                return True
+    return False
+
+
 def contract_copy_authority(ctx, suf):
     f = fn(ctx, 'uriCopyAuthority', suf)
     d, s = f.params[0], f.params[1]
@@ -75,13 +100,13 @@ def contract_copy_authority(ctx, suf):
         ip4, ip6 = c.get('%s->hostData.ip4' % s), c.get('%s->hostData.ip6' % s)
         k4, k6, kf = '%s->hostData.ip4' % d, '%s->hostData.ip6' % d, '%s->hostData.ipFuture' % d
         if ip4:
-            if not str(a.get(k4, '')).startswith('memory->malloc') or a.get('*(%s)' % k4) != '*(%s->hostData.ip4)' % s:
-                probs.append(('IPv4 bytes are not duplicated', p.retloc))
+            if not _dup_ok(ctx, p, a, k4, '%s->hostData.ip4' % s, 'UriIp4'):
+                probs.append(('IPv4 bytes are not duplicated into a fresh block (all sizeof(UriIp4) bytes)', p.retloc))
             if a.get(k6) != '0' or a.get(kf + '.first') != '0' or a.get(kf + '.afterLast') != '0':
                 probs.append(('other host kinds are not cleared when IPv4 is copied', p.retloc))
         elif ip4 is False and ip6:
-            if not str(a.get(k6, '')).startswith('memory->malloc') or a.get('*(%s)' % k6) != '*(%s->hostData.ip6)' % s:
-                probs.append(('IPv6 bytes are not duplicated', p.retloc))
+            if not _dup_ok(ctx, p, a, k6, '%s->hostData.ip6' % s, 'UriIp6'):
+                probs.append(('IPv6 bytes are not duplicated into a fresh block (all sizeof(UriIp6) bytes)', p.retloc))
             if a.get(k4) != '0' or a.get(kf + '.first') != '0' or a.get(kf + '.afterLast') != '0':
                 probs.append(('other host kinds are not cleared when IPv6 is copied', p.retloc))
         elif ip4 is False and ip6 is False:
